@@ -147,6 +147,30 @@ Lemma fa_err g : 0 <= g < 256 -> has_flag (Z.lor g 16) 16 = true.
 Proof. intros H. apply (sweep256 (fun g => has_flag (Z.lor g 16) 16)); [vm_compute; reflexivity|assumption]. Qed.
 Lemma fa_err_idem g : 0 <= g < 256 -> Z.lor (Z.lor g 16) 16 = Z.lor g 16.
 Proof. intros H. apply Z.eqb_eq. apply (sweep256 (fun g => Z.lor (Z.lor g 16) 16 =? Z.lor g 16)); [vm_compute; reflexivity|assumption]. Qed.
+Lemma unmark_252 g : unmark g = Z.land g 252.
+Proof. reflexivity. Qed.
+Lemma clean_unmark g : clean g -> unmark g = g.
+Proof. intros H. rewrite unmark_252. apply Z.eqb_eq. by_sweep (fun g => Z.land g 252 =? g). Qed.
+Lemma unmark_clean g : 0 <= g < 256 -> clean (unmark g).
+Proof.
+  intros H. rewrite unmark_252. unfold clean, root_PFlagCompressed, root_PFlagEncrypted. repeat split.
+  - apply Z.leb_le. apply (sweep256 (fun g => 0 <=? Z.land g 252)); [vm_compute; reflexivity|assumption].
+  - apply Z.ltb_lt. apply (sweep256 (fun g => Z.land g 252 <? 256)); [vm_compute; reflexivity|assumption].
+  - apply negb_true_iff. apply (sweep256 (fun g => negb (has_flag (Z.land g 252) 1))); [vm_compute; reflexivity|assumption].
+  - apply negb_true_iff. apply (sweep256 (fun g => negb (has_flag (Z.land g 252) 2))); [vm_compute; reflexivity|assumption].
+Qed.
+Lemma unmark_err g : 0 <= g < 256 -> has_flag (unmark g) 16 = has_flag g 16.
+Proof.
+  intros H. rewrite unmark_252. apply eqb_prop.
+  apply (sweep256 (fun g => Bool.eqb (has_flag (Z.land g 252) 16) (has_flag g 16))); [vm_compute; reflexivity|assumption].
+Qed.
+Lemma unmark_idem g : unmark (unmark g) = unmark g.
+Proof. rewrite !unmark_252. rewrite <- Z.land_assoc. reflexivity. Qed.
+Lemma unmark_lor_err g : 0 <= g < 256 -> unmark (Z.lor g 16) = Z.lor (unmark g) 16.
+Proof.
+  intros H. rewrite !unmark_252. apply Z.eqb_eq.
+  apply (sweep256 (fun g => Z.land (Z.lor g 16) 252 =? Z.lor (Z.land g 252) 16)); [vm_compute; reflexivity|assumption].
+Qed.
 Lemma ff_err_clean g : clean g -> clean (Z.lor g 16).
 Proof.
   intros H. unfold clean, root_PFlagCompressed, root_PFlagEncrypted. repeat split.
@@ -185,8 +209,8 @@ Lemma unmarshal_marshal c thr enc p q0 f payload :
     Some (with_body (with_flag q0 (flg p)) (rebuilt (flg p) (body_to_bytes (pbody p)))).
 Proof.
   intros Hc Hcl Hw Hm Hq. destruct Hc as [Hunzip Hzne Hunc Hcne].
+  unfold marshal_body in Hm. rewrite (clean_unmark _ Hcl) in Hm. cbv zeta in Hm.
   set (g := flg p) in *. set (w := body_to_bytes (pbody p)) in *.
-  unfold marshal_body in Hm. fold w in Hm. fold g in Hm.
   unfold root_PFlagCompressed, root_PFlagEncrypted in Hm.
   unfold unmarshal_body, rebuilt, root_PFlagCompressed, root_PFlagEncrypted, root_PFlagError. rewrite Hq.
   change (255 - 2) with 253. change (255 - 1) with 254.
@@ -209,9 +233,9 @@ Proof.
 Qed.
 
 (* an empty wire form travels as an empty payload: nothing is compressed or encrypted *)
-Lemma marshal_empty c thr enc p : body_to_bytes (pbody p) = [] -> marshal_body c thr enc p = (flg p, []).
+Lemma marshal_empty c thr enc p : clean (flg p) -> body_to_bytes (pbody p) = [] -> marshal_body c thr enc p = (flg p, []).
 Proof.
-  intros Hw. unfold marshal_body. rewrite Hw. cbn [length Z.of_nat].
+  intros Hcl Hw. unfold marshal_body. rewrite (clean_unmark _ Hcl). rewrite Hw. cbn [length Z.of_nat]. cbv zeta.
   replace (thr <? 0) with (negb (0 <=? thr)) by (rewrite Z.leb_antisym, negb_involutive; reflexivity).
   destruct (0 <? thr) eqn:E.
   - apply Z.ltb_lt in E. replace (0 <=? thr) with true by (symmetry; apply Z.leb_le; lia). reflexivity.
@@ -235,7 +259,7 @@ Lemma wire_v1_result c thr enc p q : coders_ok c -> clean (flg p) ->
 Proof.
   intros Hc Hcl H. unfold wire_v1 in H. unfold v1_result.
   destruct (body_to_bytes (pbody p)) as [|x w] eqn:Ew.
-  - rewrite (marshal_empty c thr enc p Ew) in H.
+  - rewrite (marshal_empty c thr enc p Hcl Ew) in H.
     destruct (codec_V1MaxPayloadBytes <? _); [discriminate|]. cbn [decode_payload] in H. congruence.
   - destruct (marshal_body c thr enc p) as [f payload] eqn:Em.
     destruct (codec_V1MaxPayloadBytes <? _); [discriminate|].
@@ -251,7 +275,7 @@ Proof.
   intros Hc Hcl H. unfold wire_v2 in H. unfold v2_result.
   destruct (255 <? Z.of_nat (length (refers p))); [discriminate|].
   destruct (body_to_bytes (pbody p)) as [|x w] eqn:Ew.
-  - rewrite (marshal_empty c thr enc p Ew) in H.
+  - rewrite (marshal_empty c thr enc p Hcl Ew) in H.
     destruct (codec_V2MaxPayloadBytes <? _); [discriminate|]. cbn [decode_payload] in H. congruence.
   - destruct (marshal_body c thr enc p) as [f payload] eqn:Em.
     destruct (codec_V2MaxPayloadBytes <? _); [discriminate|].
@@ -320,7 +344,7 @@ Lemma wire_v1_complete c thr enc p : coders_ok c -> clean (flg p) ->
 Proof.
   intros Hc Hcl Hsz. unfold wire_v1, v1_result.
   destruct (body_to_bytes (pbody p)) as [|x w] eqn:Ew.
-  - rewrite (marshal_empty c thr enc p Ew) in *. cbn [snd length] in *.
+  - rewrite (marshal_empty c thr enc p Hcl Ew) in *. cbn [snd length] in *.
     replace (codec_V1MaxPayloadBytes <? _) with false by (symmetry; apply Z.ltb_ge; exact Hsz). reflexivity.
   - destruct (marshal_body c thr enc p) as [f payload] eqn:Em. cbn [snd] in Hsz.
     replace (codec_V1MaxPayloadBytes <? _) with false by (symmetry; apply Z.ltb_ge; exact Hsz).
@@ -338,7 +362,7 @@ Proof.
   intros Hc Hcl Hrf Hsz. unfold wire_v2, v2_result.
   replace (255 <? Z.of_nat (length (refers p))) with false by (symmetry; apply Z.ltb_ge; exact Hrf).
   destruct (body_to_bytes (pbody p)) as [|x w] eqn:Ew.
-  - rewrite (marshal_empty c thr enc p Ew) in *. cbn [snd length] in *.
+  - rewrite (marshal_empty c thr enc p Hcl Ew) in *. cbn [snd length] in *.
     replace (codec_V2MaxPayloadBytes <? _) with false by (symmetry; apply Z.ltb_ge; exact Hsz). reflexivity.
   - destruct (marshal_body c thr enc p) as [f payload] eqn:Em. cbn [snd] in Hsz.
     replace (codec_V2MaxPayloadBytes <? _) with false by (symmetry; apply Z.ltb_ge; exact Hsz).
